@@ -1,0 +1,80 @@
+//go:build verif
+
+package dicescript
+
+import "golang.org/x/exp/rand"
+
+// Verification hooks, compiled only with `-tags verif`. Every hook is a nil-able
+// package-level func var that a test harness may install; the call sites are
+// one-line additions that do nothing when no hook is installed.
+
+// VerifStepInfo is what the dispatch loop reports before executing an instruction.
+type VerifStepInfo struct {
+	Ctx        *Context
+	Depth      int
+	PC         int
+	CodeLen    int
+	Op         string // opcode name (first word of CodeString)
+	T          int
+	Operand    any
+	Top        int
+	Blk        int
+	FBlk       int
+	Dice       int // diceStateIndex + 1
+	NDet       int
+	NumOpCount IntType
+}
+
+var VerifStepHook func(info *VerifStepInfo)
+
+func verifStep(ctx *Context, opIndex int, code *ByteCode, blockIndex, fstrBlockIndex, diceStateIndex, ndet int) {
+	if VerifStepHook == nil {
+		return
+	}
+	VerifStepHook(&VerifStepInfo{
+		Ctx: ctx, Depth: ctx.subThreadDepth, PC: opIndex, CodeLen: ctx.codeIndex,
+		Op: VerifOpName(code.T), T: int(code.T), Operand: code.Value,
+		Top: ctx.top, Blk: blockIndex, FBlk: fstrBlockIndex, Dice: diceStateIndex + 1,
+		NDet: ndet, NumOpCount: ctx.NumOpCount,
+	})
+}
+
+// VerifRollHook observes (and may force) every call of Roll.
+// inner==nil is never passed; the hook receives the original arguments and a
+// function computing the unforced result with the original body.
+var VerifRollHook func(src *rand.PCGSource, sides IntType, mode int, orig func() IntType) (IntType, bool)
+
+const verifInnerMark = 1 << 20
+
+func verifRoll(src *rand.PCGSource, dicePoints IntType, mod *int) (IntType, bool) {
+	if *mod >= verifInnerMark/2 {
+		// re-entered from the hook: strip the marker and run the original body
+		*mod -= verifInnerMark
+		return 0, false
+	}
+	h := VerifRollHook
+	if h == nil {
+		return 0, false
+	}
+	m := *mod
+	return h(src, dicePoints, m, func() IntType { return Roll(src, dicePoints, m+verifInnerMark) })
+}
+
+// VerifEmitHook observes every instruction the parser emits.
+var VerifEmitHook func(codeIndex int, op string, cfg *RollConfig, textOffset int)
+
+func verifEmit(e *ParserData, T CodeType, value any) {
+	if VerifEmitHook == nil {
+		return
+	}
+	VerifEmitHook(e.codeIndex, VerifOpName(T), &e.Config, -1)
+}
+
+// VerifGateHook lets a harness park a goroutine at named points (schedule replay).
+var VerifGateHook func(name string, ctx *Context)
+
+func verifGate(name string, ctx *Context) {
+	if VerifGateHook != nil {
+		VerifGateHook(name, ctx)
+	}
+}
